@@ -290,6 +290,94 @@ theorem merge_prejoin {a b : Net} {tor bor : List Int} (ha : WF a) (hb : WF b)
     simp only [relBonds, List.length_map, List.length_append]
     omega
 
+/-- the copy of the second operand after both renaming loops, and the fused network -/
+structure PreData (a b o2 : Net) (tmpOpen : Int) (m1 : Net) : Prop where
+  w2 : WF0 o2
+  disjT : ∀ k ∈ dkeys o2.tensors, k ∉ dkeys a.tensors
+  disjB : ∀ k ∈ dkeys o2.bonds, k ∉ dkeys a.bonds
+  tmpne : (-1 : Int) ≠ tmpOpen
+  virt2 : ∃ vb2, dget o2.tensors tmpOpen = some vb2 ∧
+    mergeTensors ⟨a.tensors ++ o2.tensors, a.bonds ++ o2.bonds⟩ (-1) tmpOpen = .ok m1
+
+theorem merge_predata {a b : Net} {tor bor : List Int} (ha : WF a) (hb : WF b)
+    (htor : tor.Perm (sharedTids a b)) (hbor : bor.Perm (sharedBids a b))
+    {o1 o2 m1 : Net} {tmpOpen n1 n2 : Int}
+    (hf1 : tor.foldlM renTStep (b, -1, maxKey (dkeys a.tensors ++ dkeys b.tensors) + 1) = .ok (o1, tmpOpen, n1))
+    (hf2 : bor.foldlM renBStep (o1, maxKey (dkeys a.bonds ++ dkeys o1.bonds) + 1) = .ok (o2, n2))
+    (hm1 : mergeTensors ⟨dupdate a.tensors o2.tensors, dupdate a.bonds o2.bonds⟩ (-1) tmpOpen = .ok m1)
+    : PreData a b o2 tmpOpen m1 := by
+  obtain ⟨vb, hvb⟩ := hb.virt_get
+  obtain ⟨va, hva⟩ := ha.virt_get
+  -- the tensor renaming loop
+  obtain ⟨w1, _, kb1, len1, keys1, tmp1⟩ := renT_fold (st := (b, -1, _)) hb.toWF0 hf1
+  simp only at w1 kb1 len1 keys1 tmp1
+  have hneg1 : (-1 : Int) ∈ tor := htor.mem_iff.mpr (mem_sharedTids.mpr ⟨ha.virt, hb.virt⟩)
+  have hmaxT : ∀ k ∈ dkeys a.tensors ++ dkeys b.tensors, k ≤ maxKey (dkeys a.tensors ++ dkeys b.tensors) :=
+    fun k hk => le_maxKey hk
+  have hN0 : (0 : Int) ≤ maxKey (dkeys a.tensors ++ dkeys b.tensors) + 1 := by
+    have := hmaxT (-1) (List.mem_append_left _ ha.virt); omega
+  have htmp : maxKey (dkeys a.tensors ++ dkeys b.tensors) + 1 ≤ tmpOpen := by
+    rcases tmp1 with ⟨_, h2⟩ | ⟨h1, _, _⟩
+    · exact absurd hneg1 h2
+    · exact h1
+  have htmpne : (-1 : Int) ≠ tmpOpen := by omega
+  have hdisjT : ∀ k ∈ dkeys o1.tensors, k ∉ dkeys a.tensors := by
+    intro k hk hka
+    rcases keys1 k hk with ⟨h1, h2⟩ | ⟨h1, _⟩
+    · exact h2 (htor.mem_iff.mpr (mem_sharedTids.mpr ⟨hka, h1⟩))
+    · have := hmaxT k (List.mem_append_left _ hka); omega
+  -- the tracked virtual tensor keeps its shape
+  have htrack := renT_fold_track (fun net vid => ∃ T, dget net.tensors vid = some T ∧ T.shape = vb.shape)
+    (by
+      intro net net' cur new vid hw hok hvid ⟨T, hT, hS⟩
+      obtain ⟨Tc, hTc, hnew, rfl⟩ := renameTensor_spec hw hok
+      by_cases hv : vid = cur
+      · subst hv
+        rw [hT] at hTc; cases hTc
+        refine ⟨{ T with tid := new }, ?_, hS⟩
+        rw [rep_self, dget_append_right _ _ (by rw [dkeys_dpop]; exact fun h => hnew (List.mem_filter.mp h).1)]
+        simp [dget, List.lookup]
+      · refine ⟨T, ?_, hS⟩
+        rw [rep_of_ne hv]
+        apply dget_append_left
+        rw [dget_dpop_ne _ hv]; exact hT)
+    (st := (b, -1, _)) (N0 := maxKey (dkeys a.tensors ++ dkeys b.tensors) + 1) hN0
+    (by
+      intro t ht
+      have := hmaxT t (List.mem_append_left _ (mem_sharedTids.mp (htor.mem_iff.mp ht)).1); omega)
+    (le_refl _)
+    (by intro k hk; have := hmaxT k (List.mem_append_right _ hk); simp only; omega)
+    hb.virt (Or.inl rfl) hb.toWF0 ⟨vb, hvb, rfl⟩ hf1
+  simp only at htrack
+  obtain ⟨⟨vb1, hvb1, hS1⟩, htmpmem1⟩ := htrack
+  -- the bond renaming loop
+  obtain ⟨w2, _, kt2, len2, keys2⟩ := renB_fold (st := (o1, _)) w1 hf2
+  simp only at w2 kt2 len2 keys2
+  have hmaxB : ∀ k ∈ dkeys a.bonds ++ dkeys o1.bonds, k ≤ maxKey (dkeys a.bonds ++ dkeys o1.bonds) :=
+    fun k hk => le_maxKey hk
+  have hdisjB : ∀ k ∈ dkeys o2.bonds, k ∉ dkeys a.bonds := by
+    intro k hk hka
+    rcases keys2 k hk with ⟨h1, h2⟩ | ⟨h1, _⟩
+    · rw [kb1] at h1
+      exact h2 (hbor.mem_iff.mpr (mem_sharedBids.mpr ⟨hka, h1⟩))
+    · have := hmaxB k (List.mem_append_left _ hka); omega
+  have htrack2 := renB_fold_track (fun net => ∃ T, dget net.tensors tmpOpen = some T ∧ T.shape = vb.shape)
+    (by
+      intro net net' cur new hw hok ⟨T, hT, hS⟩
+      obtain ⟨B, _, _, rfl⟩ := renameBond_spec hw hok
+      exact ⟨{ T with bids := T.bids.map (rep cur new) }, by
+        show dget (relTensors _ _) _ = _
+        rw [dget_relTensors, hT]; rfl, hS⟩)
+    (st := (o1, _)) w1 ⟨vb1, hvb1, hS1⟩ hf2
+  simp only at htrack2
+  obtain ⟨vb2, hvb2, hS2⟩ := htrack2
+  have hdisjT2 : ∀ k ∈ dkeys o2.tensors, k ∉ dkeys a.tensors := by rw [kt2]; exact hdisjT
+  have hu1 : dupdate a.tensors o2.tensors = a.tensors ++ o2.tensors :=
+    dupdate_eq_append _ _ w2.tnodup hdisjT2
+  have hu2 : dupdate a.bonds o2.bonds = a.bonds ++ o2.bonds := dupdate_eq_append _ _ w2.bnodup hdisjB
+  rw [hu1, hu2] at hm1
+  exact ⟨w2, hdisjT2, hdisjB, htmpne, vb2, hvb2, hm1⟩
+
 theorem numOpenAxes_eq {net : Net} {v : STensor} (hv : dget net.tensors (-1) = some v) :
     numOpenAxes net = .ok v.shape.length := by
   unfold numOpenAxes virt; rw [hv]; rfl
